@@ -325,16 +325,27 @@ def io_trace(ctx):
     return trace_stage(ctx, "io", cmds, "Trace_Io")
 
 
+def io_trace_eio04(ctx):
+    """the embedded-io 0.4 adapter (mutually exclusive with 0.6): a second build of h_core in its own target directory"""
+    cargo_build(ctx, "h_core", features="eio04", no_default=True, target_dir="target-eio04")
+    b = os.path.join(core.HARNESS, "target-eio04", "debug", "h_core")
+    n = ctx.pick(30, 400)
+    cmds = [([b, "io", "--n", str(n), "--seed", str(ctx.seed * 1000 + 500 + i)], f"io04-{i}.ndjson") for i in range(NSH)]
+    return trace_stage(ctx, "io-eio04", cmds, "Trace_Io")
+
+
 def run_c11(ctx):
     for reqs, sl in ctx.pick([("ReqA", 8), ("ReqB", 6)], [("ReqA", 9), ("ReqB", 8), ("ReqC", 11)]):
         tlc_mc(ctx, f"transport-{reqs}", "MC_Transport", tmpl("MC_Transport", StreamLen=sl, MaxPiece=3, Requests=reqs))
     tlc_mc(ctx, "depipe", "MC_DePipe", tmpl("MC_DePipe", MaxIn=ctx.pick(4, 5), MaxScratch=ctx.pick(4, 5), Depth=ctx.pick(6, 7)))
     io_trace(ctx)
+    if ctx.tier == "thorough":
+        io_trace_eio04(ctx)
     wire_trace(ctx)      # the to_io/to_eio/from_io/from_eio pairings of the round-trip trace run over short-piece transports too
 
 
 def sel_c11(mm):
-    if mm["stage"] == "io":
+    if mm["stage"] in ("io", "io-eio04"):
         return True
     ev = mm["event"]
     return mm["stage"] == "wire" and (ev.get("enc") in ("to_io", "to_eio") or ev.get("dec") in ("from_io", "from_eio")) and "rt" in mm.get("tags", [])
